@@ -505,37 +505,20 @@ func establishmentSites(c *Ctx) []establishmentSite {
 	}
 	// (b) dialWithRetry returns a nil error only after fn(conn) returned nil (or fn == nil)
 	dwr := p.Fn(Root, "Dialer", "dialWithRetry")
-	fnParam := dwr.Params[3]
-	okAll := true
-	n := 0
-	Instrs(dwr, func(i ssa.Instruction) {
-		ret, isRet := i.(*ssa.Return)
-		if !isRet {
-			return
+	cbIdx := -1
+	for k, prm := range dwr.Params {
+		if _, isSig := prm.Type().Underlying().(*types.Signature); isSig {
+			cbIdx = k
 		}
-		if !IsNilConst(ReturnVals(ret)[1]) {
-			return
-		}
-		n++
-		// block must be dominated by (fn == nil) edge or by (fn(conn) == nil) edge
-		dom := false
-		for _, e := range NilCmpEdges(dwr, func(v ssa.Value) bool {
-			if v == fnParam {
-				return true
-			}
-			call, ok := v.(*ssa.Call)
-			return ok && call.Call.Value == fnParam
-		}) {
-			if BlockDominatesInstr(e.Nil, ret) {
-				dom = true
-			}
-		}
-		if !dom {
-			okAll = false
-		}
-	})
+	}
+	if cbIdx < 0 {
+		anchorFail("dialWithRetry has no callback parameter")
+	}
+	cbe := &cbErr{p: p, memo: map[*ssa.Function]bool{}}
+	okAll := cbe.holds(dwr, cbIdx, 1)
+	n := cbe.Succ
 	c.fact("dominance")
-	c.Check(okAll && n > 0, "dialWithRetry nil-error only after callback success", p.Pos(dwr.Pos()), fmt.Sprintf("%d nil-error return(s), each on the nil edge of fn(conn) or of fn == nil", n),
+	c.Check(okAll && n > 0, "dialWithRetry nil-error only after callback success", p.Pos(dwr.Pos()), fmt.Sprintf("%d success value(s): every returned error is the callback's verdict, nil on the nil edge of that verdict (or of fn == nil), or non-nil (helpers followed)", n),
 		"dialWithRetry can report success although the callback (dial hooks) failed on that attempt")
 	return sites
 }
